@@ -1,0 +1,55 @@
+//! Verification-only event sink, compiled in only with `--cfg aquavm_verif`.
+//! Records what the interpreter does with streams so that an external monitor can check it.
+
+use std::cell::RefCell;
+
+#[derive(Debug, Clone, PartialEq)]
+pub enum Event {
+    /// a value was put into a stream or a stream map (replayed from data or produced in this run)
+    StreamAdd {
+        name: String,
+        generation: String,
+        value: String,
+        trace_pos: u32,
+    },
+    ScopeStart {
+        name: String,
+    },
+    ScopeEnd {
+        name: String,
+    },
+    /// a canon instruction took a snapshot of a stream or a stream map
+    CanonSnapshot {
+        name: String,
+        values: Vec<String>,
+    },
+    /// the last snapshot was used to create a canon result for the first time
+    CanonFirstTime {
+        peer: String,
+    },
+    FoldStart {
+        fold_id: u32,
+        name: String,
+    },
+    FoldIteration {
+        fold_id: u32,
+        value_pos: u32,
+        value: String,
+    },
+    FoldEnd {
+        fold_id: u32,
+    },
+}
+
+thread_local! {
+    static EVENTS: RefCell<Vec<Event>> = RefCell::new(Vec::new());
+}
+
+pub(crate) fn emit(event: Event) {
+    EVENTS.with(|events| events.borrow_mut().push(event));
+}
+
+/// Returns and clears the events recorded on this thread.
+pub fn drain() -> Vec<Event> {
+    EVENTS.with(|events| std::mem::take(&mut *events.borrow_mut()))
+}
